@@ -2,7 +2,7 @@
 from . import common as C, simplex
 
 def run(ctx):
-    cov = C.proof_step(ctx, "Props/C13.v", ["Proof/StandardizeSound.v", "Proof/PivotSound.v"])
+    cov = C.proof_step(ctx, "Props/C13.v", ["Proof/StandardizeSound.v", "Proof/StandardizeEquiv.v", "Proof/StandardizeBack.v", "Proof/PivotSound.v"])
     res = simplex.run_simplex(ctx, {"C13"})
     if res is None:
         return C.finish(ctx, "proof", cov, [])
@@ -10,6 +10,7 @@ def run(ctx):
     cov.update(cov2)
     cov["trusted_base"] = simplex.trusted(cov)
     return C.finish(ctx, "proof", cov, [
-        "PARTIAL: proved are the row-level facts (rhs sign normalisation keeps the equation and yields b >= 0, slack/surplus, free-variable split, objective flip); "
-        "the end-to-end transfer theorem over the positional column bookkeeping is not proved - it is tied structurally (exact equality of the whole standard form on every generated model) "
-        "and evaluated on the implementation at grid points in both directions"])
+        "PARTIAL: the backward direction is proved end to end over to_standard_form (C13_backward: a non-negative solution of the standard form, read back by name, satisfies every row, "
+        "every domain and has the reported objective value); the forward direction (every feasible point has a standard-form preimage) is proved row by row only "
+        "(rhs sign normalisation, slack/surplus, free-variable split, objective flip) and is evaluated on the implementation at grid points on every run; "
+        "the whole conversion is tied structurally (exact equality of the whole standard form on every generated model)"])
